@@ -150,14 +150,21 @@ KERNELS = [
          ext_fn={"random_sample": ("sampler", ["range_size", "quantity", "replace"])}),
     dict(name="tournament_selection", file="utils/selections.py", func="tournament_selection",
          params=[("fitness", "Arr"), ("rank", "Arr"), ("tour_size", "Int"), ("quantity", "Int")], ret="Arr",
-         ext_stream={"random_sample": "samples"}),
+         ext_fn={"random_sample": ("sampler", ["range_size", "quantity", "replace"])}),
+    # ---- the two roulette selections: one call of random_weighted_sample, whose result is `wsampler weights quantity replace k`
+    dict(name="proportional_selection", file="utils/selections.py", func="proportional_selection",
+         params=[("fitness", "Arr"), ("rank", "Arr"), ("tour_size", "Int"), ("quantity", "Int")], ret="Arr",
+         ext_fn={"random_weighted_sample": ("wsampler", ["weights", "quantity", "replace"])}),
+    dict(name="rank_selection", file="utils/selections.py", func="rank_selection",
+         params=[("fitness", "Arr"), ("rank", "Arr"), ("tour_size", "Int"), ("quantity", "Int")], ret="Arr",
+         ext_fn={"random_weighted_sample": ("wsampler", ["weights", "quantity", "replace"])}),
 ]
 
 LTY = {"Int": "Int", "Arr": "List Int", "Bool": "Bool", "Mat": "List (List Int)", "Self": "List Int", "Tree": "List (List Int)",
        "ArrSelf": "List (List Int)"}
 TREE_ATTR = {"_nodes": "nodes", "_n_args": "nargs"}
 DEFAULT = {"Int": "0", "Arr": "[]", "Bool": "false", "Mat": "[]"}
-RESERVED = ("sampler", "end", "at", "from", "to", "in", "do", "then", "fun", "match", "with", "open", "by", "s", "us", "ns", "fuel", "rolls", "max", "min", "hi0", "samples", "self", "self_nodes", "self_nargs", "log", "stops", "kb", "value_ext", "tree")
+RESERVED = ("sampler", "wsampler", "end", "at", "from", "to", "in", "do", "then", "fun", "match", "with", "open", "by", "s", "us", "ns", "fuel", "rolls", "max", "min", "hi0", "samples", "self", "self_nodes", "self_nargs", "log", "stops", "kb", "value_ext", "tree")
 
 
 class NotRecognised(Exception):
